@@ -366,7 +366,7 @@ example (W : World) : applyInclude W "/p" "/p" [] ["/p/compose.yaml"]
     [("include", .seq [.str "/p/compose.yaml"]), ("services", .map [])] = .err "cycle" := by
   apply include_cycle_err W "/p" "/p" [] ["/p/compose.yaml"] _ { path := ["/p/compose.yaml"] } []
   · rfl
-  · exact ⟨"/p/compose.yaml", List.mem_cons_self, by simp [localAbs, isAbs]⟩
+  · exact ⟨"/p/compose.yaml", List.mem_cons_self, by decide⟩
 
 /-! ## which directory the included project is anchored in -/
 
